@@ -18,7 +18,8 @@ LEVEL = ("(Tags are strings or integers, including 0 and the empty string.) Hist
          "cross-level additions, admissible and inadmissible resolution changes - are replayed on a TwoDResponse. "
          "After every step each admissible view (every pathway, type, process, signal, total, get_all_data) must "
          "equal the sum of the accepted additions that belong to it; refused operations must leave every view "
-         "unchanged. Integer-valued complex arrays make the comparison exact.")
+         "unchanged. Integer-valued complex arrays make the comparison exact."
+         " Later additions: caller-owned arrays handed over without a copy and re-used; tags that print the same.")
 NOTE = ("Membership tables (type -> process, type -> signal) are typed into the oracle and checked to partition the "
         "eight pathway types. Reads on an object to which nothing has been added are not claimed. Array shapes are "
         "2x2 and 3x2 only.")
